@@ -164,14 +164,6 @@ Proof. unfold clear_window. destruct (is_some_nat (window s) t); simpl; auto. Qe
 Lemma clear_window_cases s t : window (clear_window s t) = window s \/ window (clear_window s t) = None.
 Proof. unfold clear_window. destruct (is_some_nat (window s) t); simpl; auto. Qed.
 
-Definition rel_state (s : gstate) (r : res) (t : nat) : gstate :=
-  match r with Exec => clear_window (set_own s r None) t | _ => set_own s r None end.
-Definition racq_state (s : gstate) (r : rres) (t : nat) : gstate :=
-  match r with
-  | ChkR => clear_window (set_rd s r (t :: rd s r)) t
-  | DbR => set_rd s r (t :: rd s r)
-  end.
-
 Lemma held_acq s r t u : own s r = None ->
   held_of (set_own s r (Some t)) u = if Nat.eqb u t then hset (held_of s t) r true else held_of s u.
 Proof.
@@ -1016,3 +1008,111 @@ Qed.
 Example register_three_no_remove :
   forall p, In p [p_register; p_register; p_register] -> no_remove p = true.
 Proof. intros p Hp. simpl in Hp. destruct Hp as [<-|[<-|[<-|[]]]]; vm_compute; reflexivity. Qed.
+
+(** * The monitor's rules are invariants of the LTS
+
+    Every step of a reachable state of a checked system is accepted by
+    [mon_step], and the monitor's state IS the system's lock state: the rules the
+    trace oracle enforces on an implementation trace (see [Locks.v]) are exactly
+    facts that hold of every trace of the LTS. *)
+Lemma act_ok_locks_of h g a : act_ok h g a = true -> act_ok_locks h a = true.
+Proof. destruct a; simpl; intro H; split_andb; try assumption; try reflexivity; try (apply andb_true_iff; split; assumption). Qed.
+
+Lemma mon_step_of_step S t e S' : Inv S -> step S t e S' -> mon_step (fst S) t e = Some (fst S').
+Proof.
+  intros HI Hst. inversion Hst as [s ths t0 th c e0 s' th' Hnth Hts]; subst.
+  pose proof (I_thr _ HI _ _ Hnth) as Hck. simpl in Hck. simpl.
+  destruct th as [p g]. simpl in Hck. unfold tstep in Hts. simpl in Hts.
+  destruct p; simpl in Hck; split_andb.
+  - discriminate.
+  - destruct (can_acq s r) eqn:Hc; [|discriminate]. inversion Hts; subst. simpl. rewrite Hc, H. reflexivity.
+  - destruct c.
+    + destruct (can_acq s r) eqn:Hc; [|discriminate]. inversion Hts; subst. simpl. rewrite Hc, H. reflexivity.
+    + inversion Hts; subst. reflexivity.
+  - destruct (can_acq s r) eqn:Hc; inversion Hts; subst; simpl; [rewrite Hc, H|]; reflexivity.
+  - inversion Hts; subst. simpl. rewrite H. destruct r; reflexivity.
+  - destruct (can_racq s r) eqn:Hc; [|discriminate]. inversion Hts; subst. simpl. rewrite Hc, H. destruct r; reflexivity.
+  - inversion Hts; subst. simpl.
+    assert (Hm : memb t (rd s r) = true) by (destruct r; assumption).
+    rewrite Hm. destruct (rd s r) eqn:E; [simpl in Hm; discriminate | reflexivity].
+  - inversion Hts; subst. simpl. rewrite (act_ok_locks_of _ _ _ H). reflexivity.
+  - inversion Hts; subst. reflexivity.
+  - destruct (Nat.ltb 0 (ndbs s)); inversion Hts; subst; reflexivity.
+Qed.
+
+Inductive exec_trace : sys -> list (nat * ev) -> sys -> Prop :=
+| et_nil : forall S, exec_trace S [] S
+| et_cons : forall S t e S1 tr S2, step S t e S1 -> exec_trace S1 tr S2 -> exec_trace S ((t, e) :: tr) S2.
+
+Lemma exec_trace_reach S0 S tr S' : reach S0 S -> exec_trace S tr S' -> reach S0 S'.
+Proof. intros Hr He. induction He; [assumption|]. apply IHHe. eapply reach_step; eassumption. Qed.
+
+Lemma mon_run_of_trace S tr S' : Inv S -> exec_trace S tr S' -> mon_run (fst S) tr = Some (fst S').
+Proof.
+  intros HI He. induction He; simpl; [reflexivity|].
+  rewrite (mon_step_of_step _ _ _ _ HI H). apply IHHe. eapply Inv_step; eassumption.
+Qed.
+
+Lemma final_idle S : Inv S -> final S -> idle (fst S) = true.
+Proof.
+  intros HI Hf. destruct S as [s ths]. simpl in *.
+  assert (Ho : forall r, own s r = None).
+  { intro r. destruct (own s r) as [u|] eqn:E; [|reflexivity]. exfalso.
+    pose proof (I_own _ HI _ _ E) as Hlt. simpl in Hlt.
+    destruct (nth_error ths u) as [th|] eqn:Hn; [|apply nth_error_None in Hn; lia].
+    pose proof (I_thr _ HI _ _ Hn) as Hck. simpl in Hck. rewrite (Hf _ (nth_error_In _ _ Hn)) in Hck. simpl in Hck.
+    unfold nothing, only_exec, held_of in Hck. simpl in Hck.
+    destruct r; rewrite E in Hck; simpl in Hck; rewrite Nat.eqb_refl in Hck; simpl in Hck;
+      rewrite ?andb_false_r in Hck; discriminate. }
+  assert (Hr : forall r, rd s r = []).
+  { intro r. destruct (rd s r) as [|u l] eqn:E; [reflexivity|]. exfalso.
+    assert (Hin : In u (rd s r)) by (rewrite E; left; reflexivity).
+    pose proof (I_rd _ HI _ _ Hin) as Hlt. simpl in Hlt.
+    destruct (nth_error ths u) as [th|] eqn:Hn; [|apply nth_error_None in Hn; lia].
+    pose proof (I_thr _ HI _ _ Hn) as Hck. simpl in Hck. rewrite (Hf _ (nth_error_In _ _ Hn)) in Hck. simpl in Hck.
+    unfold nothing, only_exec, held_of in Hck. simpl in Hck.
+    destruct r; rewrite E in Hck; simpl in Hck; rewrite Nat.eqb_refl in Hck; simpl in Hck;
+      rewrite ?andb_false_r in Hck; discriminate. }
+  unfold idle. rewrite !Ho, !Hr. reflexivity.
+Qed.
+
+(** Every trace of the LTS is accepted by the monitor, rule by rule, with the
+    monitor's state equal to the system's lock state; complete runs are accepted
+    by [trace_ok] (nothing held at the end, no checkpoint inside a hand-off
+    window).  Hence an implementation trace that [conc_trace_ok] accepts violates
+    none of the facts the theorems above establish for the LTS, and one that it
+    rejects exhibits a lock behaviour no LTS trace has. *)
+Theorem lts_traces_accepted_thm ps tr S :
+  checked ps -> exec_trace (start ps) tr S ->
+  mon_run init_state tr = Some (fst S) /\ viol (fst S) = false /\
+  (final S -> trace_ok tr = true).
+Proof.
+  intros Hc He. pose proof (Inv_start _ Hc) as HI0.
+  pose proof (mon_run_of_trace _ _ _ HI0 He) as Hm. simpl in Hm.
+  assert (HI : Inv S) by (eapply Inv_reach; [eassumption | eapply exec_trace_reach; [apply reach_refl | eassumption]]).
+  repeat split; [assumption | apply (I_viol _ HI) |].
+  intro Hf. unfold trace_ok. rewrite Hm. rewrite (I_viol _ HI), (final_idle _ HI Hf). reflexivity.
+Qed.
+
+(** what acceptance gives directly (no reference to programs): the monitor never
+    lets two goroutines own one exclusive lock, a writer coexist with readers, a
+    checkpoint run inside a hand-off window *)
+Lemma mon_step_excl s t e s' r u :
+  mon_step s t e = Some s' -> own s r = Some u -> own s' r = Some u \/ (own s' r = None /\ u = t).
+Proof.
+  intros H Ho. unfold mon_step in H. destruct e; simpl in H;
+    repeat match type of H with
+    | (if ?b then _ else _) = _ => destruct b eqn:?
+    | match ?l with [] => _ | _ :: _ => _ end = _ => destruct l
+    end; try discriminate; inversion H; subst; clear H; simpl; auto.
+  - (* EAcq *) apply andb_true_iff in Heqb. destruct Heqb as [Hc _]. apply can_acq_free in Hc.
+    destruct (res_eqb r r0) eqn:E; [apply res_eqb_eq in E; subst; congruence | auto].
+  - apply andb_true_iff in Heqb. destruct Heqb as [Hc _]. apply can_acq_free in Hc.
+    destruct (res_eqb r r0) eqn:E; [apply res_eqb_eq in E; subst; congruence | auto].
+  - (* ERel *) rewrite own_rel_state. destruct (res_eqb r r0) eqn:E; [|auto].
+    apply res_eqb_eq in E. subst. right. split; [reflexivity|].
+    unfold rel_ok in Heqb. apply andb_true_iff in Heqb. destruct Heqb as [Hh _].
+    assert (own s r0 = Some t) by (apply is_some_nat_true; destruct r0; assumption). congruence.
+  - rewrite own_racq_state. auto.
+  - destruct a; simpl; auto.
+Qed.
